@@ -87,6 +87,7 @@ SHIMS = {
     "bisectingKmeans.c": "shim_kmeans.c",
     "aln_controller.c": "shim_controller.c",
 }
+# CLI sources reached through shims (src/run_kalign.c is #included by harness/shim_run_kalign.c)
 
 VARIANTS = {
     # name: (compiler, cflags, ldflags)
